@@ -391,6 +391,12 @@ def _rooted_at_arg(e, i):
         if e[0] == "call" and e[3] and e[2] in ("deref", "deref_mut", "as_slice", "as_mut_slice", "as_bytes", "index"):
             e = nobb(e[3][0])
             continue
+        if e[0] == "call" and e[3] and e[2] == "new" and e[1].startswith("<core::mem::manually_drop::ManuallyDrop"):
+            e = nobb(e[3][0])  # the container parked in `ManuallyDrop` is the container
+            continue
+        if e[0] == "addr":
+            e = nobb(e[1])
+            continue
         return False
 
 
@@ -432,6 +438,10 @@ def rule_moveonce(ctx, rep):
                     ok, why = False, "the bulk copy does not come after `into_boxed_slice`"
                 elif not frees or not any(cbi in dom.get(fb, set()) and all(fb in dom.get(r, set()) for r in rets) for fb in frees):
                     ok, why = False, "the boxed buffer is not released as `Box<ManuallyDrop<[T]>>` after the copy on every normal exit: its storage would leak, or the moved elements would be dropped a second time"
+            elif len(copies) == 1 and not sets and _empty_vec_release(F, B, b, 2, copies[0][0], rets, dom)[0] is not None:
+                # a third way: the Vec is parked in `ManuallyDrop` (never dropped), and its buffer goes back to the allocator as an
+                # empty Vec of the same capacity: `drop(Vec::from_raw_parts(v.as_mut_ptr(), 0, v.capacity()))`
+                ok, why = _empty_vec_release(F, B, b, 2, copies[0][0], rets, dom)
             elif len(copies) != 1 or len(sets) != 1:
                 ok, why = False, "expected one bulk copy and one `set_len`, found %d and %d: the source Vec would drop the moved elements a second time (or keep them)" % (len(copies), len(sets))
             else:
@@ -484,6 +494,12 @@ def rule_moveonce(ctx, rep):
                     else:
                         why = "the source Box is re-created at type %s: dropping it would destroy the moved value a second time" % (F.ts(ga[0]) if ga else "?")
             if not ok:
+                # or as an empty Vec of capacity one: `drop(Vec::from_raw_parts(src, 0, 1))` (a zero-sized T: no storage either way)
+                rets_ = [i for i, bl in enumerate(b["blocks"]) if bl["term"]["k"] == "return"]
+                r_ok, r_why = _empty_vec_release(F, B, b, 1, None, rets_, B.dominators())
+                if r_ok is not None:
+                    ok, why = r_ok, (r_why or why)
+            if not ok:
                 # or its storage is handed back directly: `dealloc(src as *mut u8, layout_of_T)` - only sound behind a test that
                 # the layout is not zero-sized (a `Box` of a zero-sized type owns no storage, its pointer is dangling)
                 from .. import model
@@ -534,6 +550,53 @@ def rule_moveonce(ctx, rep):
             else:
                 rep.bad("R-MOVEONCE", b["key"] + "/T: Copy", "elements are bit-copied out of a borrowed slice without a `T: Copy` bound: each would be owned twice", F.loc(b), tag)
     rep.floor("R-MOVEONCE", 4, "Vec, Box, two borrowed-slice constructors")
+
+
+VEC_FROM_RAW = ("<alloc::vec::Vec<T>>::from_raw_parts", "<alloc::vec::Vec<T, A>>::from_raw_parts_in", "<alloc::vec::Vec<T, alloc::alloc::Global>>::from_raw_parts")
+
+
+def _empty_vec_release(F, B, b, argi, copy_bb, rets, dom):
+    """`drop(Vec::from_raw_parts(buf, 0, cap))` releasing the buffer of the container passed as argument `argi` without touching
+    its (moved-out) contents. (None, None): no such call. Otherwise (ok, why): buf is the container's own buffer, the length is
+    0, cap is the container's capacity (a Box: 1), the empty Vec is dropped after the copy on every normal exit, and the container
+    itself is never dropped (it was parked in ManuallyDrop / taken apart by into_raw)."""
+    calls = [(bi, t) for bi, t in B.calls() if atomics.callee_of(t) in VEC_FROM_RAW and len(t["args"]) >= 3]
+    if not calls:
+        return None, None
+    if len(calls) != 1:
+        return False, "more than one `Vec::from_raw_parts` in the constructor"
+    bi, t = calls[0]
+    buf = nobb(symx.expr(F, B, t["args"][0]))
+    ln = B.const_value(t["args"][1])
+    cap = nobb(symx.expr(F, B, t["args"][2]))
+    is_box = any(F.ty(x)["k"] == "adt" and F.ty(x)["path"] == "alloc::boxed::Box" for x in b["inputs"][argi - 1 : argi])
+    raws = []
+    find_calls(buf, "into_raw", raws)
+    x = buf
+    while x[0] == "cast":
+        x = x[2]
+    own_buf = (x[0] == "call" and x[2] in ("as_ptr", "as_mut_ptr") and x[3] and _rooted_at_arg(x[3][0], argi)) or (raws and _rooted_at_arg(raws[0][3][0], argi)) or (is_box and _rooted_at_arg(x, argi))  # (`Box::into_raw(b)` is the box's pointer)
+    if not own_buf:
+        return False, "the buffer handed to `Vec::from_raw_parts` (%s) is not the source container's own" % symx.show(buf)
+    if ln != 0:
+        return False, "the releasing Vec is rebuilt with length %s, not 0: dropping it destroys the moved elements a second time" % ln
+    if is_box:
+        if cap != ("const", 1):
+            return False, "a Box is a buffer of exactly one value, but it is released as a Vec of capacity %s" % symx.show(cap)
+    elif not (cap[0] == "call" and cap[2] == "capacity" and cap[3] and _rooted_at_arg(cap[3][0], argi)):
+        return False, "the source Vec's buffer is released with capacity %s, not the Vec's own `capacity()`: it goes back to the allocator with a layout it was not allocated with (or, empty, not at all)" % symx.show(cap)
+    if copy_bb is not None and copy_bb not in dom.get(bi, set()):
+        return False, "the buffer is released before the bulk copy"
+    if any(bi not in dom.get(r, set()) for r in rets):
+        return False, "the buffer is not released on every normal exit: the source container's storage leaks"
+    dl = t["dest"]["l"]
+    if not any(u == "drop" for u in _uses(b, dl)):
+        return False, "the empty Vec rebuilt around the buffer is never dropped: the source container's storage leaks"
+    for i, bl in enumerate(b["blocks"]):
+        tt = bl["term"]
+        if tt["k"] == "drop" and not bl["cleanup"] and tt["place"]["l"] == argi and not tt["place"]["p"]:
+            return False, "the source container is also dropped by its own destructor: the moved elements are destroyed a second time"
+    return True, None
 
 
 def _uses(b, l):
